@@ -14,8 +14,11 @@ CONSTANTS
   Quantum = 2
   MaxTime = 30
   Rule = "sum"
+  Cfgs = {"A"}
+  InitCfg = "A"
+  RL = "safe"
   Off = {"nflgossip"}
   Lim <- NoFaults
 VIEW View
-INVARIANTS AtLeastOnce NoDuplicateWhenHealthy SilenceSurvivesRestart NoRepeatAfterRestart ReadyEventually Sane
+INVARIANTS AtLeastOnce NoDuplicateWhenHealthy SilenceSurvivesRestart NoRepeatAfterRestart ReadyEventually RoutedByConfigInForce StatusShowsConfigInForce ReceiversAgree Sane
 CHECK_DEADLOCK FALSE
